@@ -34,6 +34,10 @@ CfgThC == Cfgs(HostSeqs(2, {"ok", "noconn"}) \cup {<<"ok", "ok", "ok">>}, {PolNo
 CfgThorough == CfgThA \cup CfgThB \cup CfgThC
 \* the instance DESIGN.md measured: 4 hosts, budget 2, k = 2
 CfgWitness == Cfgs({<<"ok", "ok", "ok", "ok">>}, {PolBudget(2)}, {"ok", "e_retry", "e_next"}, {2}, {TRUE}, {"none"})
+\* the wrong variant "wait for a result only" must be refuted (liveness) on this instance
+CfgStuck == Cfgs({<<"ok", "ok">>}, {PolNone}, {"ok"}, {1}, {TRUE}, {"cancel"})
+\* gated rounds "the caller's context ends after every execution was launched and before any answer"
+CfgCancelRounds == Cfgs({<<"ok", "ok">>}, {PolNone, PolBudget(1)}, {"ok"}, {1}, {TRUE}, {"cancel", "deadline"})
 \* liveness (small)
 CfgLive == Cfgs({<<>>, <<"ok">>, <<"noconn", "ok">>, <<"ok", "ok">>}, {PolNone, PolBudget(1)}, {"ok", "e_retry", "e_next"}, {0, 1}, BOOLEAN, {"none", "deadline"})
 
